@@ -853,10 +853,34 @@ struct ModelRun
         c0.m                   = start;
         c0.m.any_victim_policy = any_policy;
         frontier.push_back(c0);
+        long slow_steps = 0;
         for (auto& e : el)
         {
             std::vector<Cand>     next;
             std::set<std::string> seen;
+            // fast path: one candidate and an element that cannot branch (no eviction choice, no expired key addressed):
+            // apply it in place instead of copying the whole model per element (ranges of a thousand elements)
+            if (frontier.size() == 1)
+            {
+                Cand&      cd      = frontier[0];
+                const bool may_evict = cd.m.bounded() && cd.m.live.size() >= cd.m.cap && !cd.m.live.count(e.k);
+                if (!may_evict && !cd.m.Z.count(e.k))
+                {
+                    EnumChooser      ch;
+                    md::InsertEffect fx = cd.m.insert_rule(now, e.k, value_for(e.k, op_idx, e.orig), allow, e.ttl_ms, ch);
+                    if (fx.result)
+                        ++cd.count;
+                    if (fx.doa && fx.result)
+                        ++cd.doa;
+                    continue;
+                }
+            }
+            // very long ranges must stay on the fast path: the general path copies and serialises the whole model per element
+            if (el.size() > 400 && ++slow_steps > 64)
+            {
+                overflow = true;
+                return frontier;
+            }
             for (auto& cd : frontier)
             {
                 EnumChooser ch;
